@@ -123,6 +123,9 @@ func (e *Env) inline(fr *Frame, fn *ssa.Function, bind []Value, args []Value, rt
 	if e.dry == 0 && !fr.pure {
 		e.inlined[funcQName(fn)] = true
 	}
+	if cit := e.w.contractFor(fn); cit != nil && len(cit.Emits) > 0 && !fr.pure {
+		e.emitFor(cit, e.specCtx(fn, st, nil, e.contractVars(cit, fn, args)), st)
+	}
 	nf := &Frame{fn: fn, parent: fr, depth: fr.depth + 1, item: fr.item, loopPrefix: fr.loopPrefix + shortNameBare(fn) + ".",
 		pure: fr.pure, entrySt: fr.entrySt, specVars: fr.specVars, loopPhis: fr.loopPhis, sname: shortName(fn)}
 	nf.regs = map[ssa.Value]Value{}
@@ -224,6 +227,7 @@ func (e *Env) applyContract(fr *Frame, it *Item, fn *ssa.Function, args []Value,
 			e.trust("trusted (unverified) contract of " + funcQName(fn) + ": " + it.Opts["trusted-reason"])
 		}
 	}
+	e.emitFor(it, ctx, st)
 	old := st.clone()
 	// havoc the modifies set
 	e.havocModifies(it, ctx, st)
@@ -242,7 +246,7 @@ func (e *Env) applyContract(fr *Frame, it *Item, fn *ssa.Function, args []Value,
 	bindResults(vars, fn, results)
 	post := e.specCtx(fn, st, old, vars)
 	for _, c := range it.Clauses {
-		if c.Kind != "ensures" {
+		if c.Kind != "ensures" && c.Kind != "ghostensures" {
 			continue
 		}
 		e.assume(mkImp(st.pc, post.boolTerm(c.Expr)))
@@ -252,6 +256,11 @@ func (e *Env) applyContract(fr *Frame, it *Item, fn *ssa.Function, args []Value,
 
 // havocModifies replaces the locations named by the modifies clauses by fresh values.
 func (e *Env) havocModifies(it *Item, ctx *SpecCtx, st *State) {
+	if pv, ok := it.Opts["preserves"]; ok {
+		e.havocAllBut(st, e.w.preservedTypes(it))
+		e.trust("calls into unknown code behind " + it.Name + " are assumed to leave the fields of the types in '" + pv + "' unchanged (and may change everything else)")
+		return
+	}
 	allocMay := false
 	for _, c := range it.Clauses {
 		if c.Kind != "modifies" {
@@ -277,17 +286,26 @@ func (e *Env) havocLoc(ctx *SpecCtx, x *SExpr, st *State) {
 		e.writeLog["*callee-modifies*"] = append(e.writeLog["*callee-modifies*"], x.String())
 	}
 	switch x.Op {
+	case "call":
+		if x.Name == "trace" && len(x.Args) == 1 {
+			ch := x.Args[0].String()
+			for n := range e.heapSorts {
+				if strings.HasPrefix(n, "T!"+ch+"!") {
+					st.heap[n] = e.fresh("mod_trace", "(Array Int Int)")
+				}
+			}
+			ln := "T!" + ch + "!len"
+			e.heapGet(st, ln, "(Array Int Int)")
+			st.heap[ln] = e.fresh("mod_tracelen", "(Array Int Int)")
+			e.assume(sx("<=", "0", mkSelect(st.heap[ln], "0")))
+			return
+		}
+		specFail("modifies %s", x)
 	case "sel":
-		base := ctx.eval(x.Args[0])
-		p, ok := base.(*Ptr)
-		if !ok {
-			specFail("modifies %s: base is not a pointer", x)
+		fp := ctx.locOf(x)
+		if fp == nil {
+			specFail("modifies %s: not a location", x)
 		}
-		i, _ := fieldIndex(p.pointee(), x.Name)
-		if i < 0 {
-			specFail("modifies %s: no such field", x)
-		}
-		fp := &Ptr{Kind: p.Kind, Ref: p.Ref, Idx: p.Idx, Root: p.Root, Path: append(append([]int(nil), p.Path...), i)}
 		e.store(st, fp, e.freshValue(fp.pointee(), "mod_"+x.Name))
 	case "allelems":
 		base := ctx.eval(x.Args[0])
@@ -414,6 +432,7 @@ func (e *Env) applyIfaceContract(fr *Frame, it *Item, recv *Iface, m *types.Func
 	if e.dry == 0 {
 		e.usedContracts["interface "+it.Pkg+"."+it.Name] = true
 	}
+	e.emitFor(it, ctx, st)
 	old := st.clone()
 	e.havocModifies(it, ctx, st)
 	var results []Value
@@ -435,7 +454,7 @@ func (e *Env) applyIfaceContract(fr *Frame, it *Item, recv *Iface, m *types.Func
 	}
 	post := &SpecCtx{e: e, st: st, old: old, vars: vars, pkg: pkg}
 	for _, c := range it.Clauses {
-		if c.Kind == "ensures" {
+		if c.Kind == "ensures" || c.Kind == "ghostensures" {
 			e.assume(mkImp(st.pc, post.boolTerm(c.Expr)))
 		}
 	}
@@ -786,4 +805,33 @@ func (e *Env) rangeNext(fr *Frame, x *ssa.Next, st *State) Value {
 		kv = boolV(tFalse)
 	}
 	return &Tuple{V: []Value{boolV(okv), kv, vv}, Typ: x.Type()}
+}
+
+// locOf evaluates a field-selection chain as a heap location (nil if it is not one).
+func (c *SpecCtx) locOf(x *SExpr) *Ptr {
+	for x.Op == "paren" {
+		x = x.Args[0]
+	}
+	if x.Op != "sel" {
+		return nil
+	}
+	var base *Ptr
+	if inner := c.locOf(x.Args[0]); inner != nil {
+		if _, isStruct := inner.pointee().Underlying().(*types.Struct); isStruct {
+			base = inner
+		}
+	}
+	if base == nil {
+		v := c.eval(x.Args[0])
+		p, ok := v.(*Ptr)
+		if !ok {
+			return nil
+		}
+		base = p
+	}
+	i, _ := fieldIndex(base.pointee(), x.Name)
+	if i < 0 {
+		return nil
+	}
+	return &Ptr{Kind: base.Kind, Ref: base.Ref, Idx: base.Idx, Root: base.Root, Path: append(append([]int(nil), base.Path...), i)}
 }
